@@ -45,6 +45,10 @@ pub fn val(code: u8) -> BigUint {
         1 => big(7),
         2 => p() - big(1),
         3 => pow2(200) + big(5),
+        // leaf values that coincide with the value of an empty subtree of height 1 / 2 (what a sparse
+        // representation treats as "nothing stored")
+        4 => crate::refmodel::poseidon::hash2(&big(0), &big(0)),
+        5 => { let e = crate::refmodel::poseidon::hash2(&big(0), &big(0)); crate::refmodel::poseidon::hash2(&e, &e) }
         n => big(1000 + n as u64),
     }
 }
@@ -1010,6 +1014,16 @@ pub fn alphabet(d: usize, vals: &[u8], with_batch: bool, with_plain: bool, extra
             ops.push(TreeOp::Init(vs));
         }
     }
+    // leaves whose value equals an empty-subtree hash
+    if with_plain {
+        ops.push(TreeOp::Set(0, 4));
+        ops.push(TreeOp::Set(c - 1, 5));
+        ops.push(TreeOp::Append(4));
+        ops.push(TreeOp::Range(c / 2, vec![4, 5]));
+    }
+    if with_batch {
+        ops.push(TreeOp::Batch(0, vec![5, 4], vec![]));
+    }
     // positions at the top of the integer range (start + length must not wrap around the capacity check)
     if with_plain {
         ops.push(TreeOp::Set(u64::MAX, vals[0]));
@@ -1590,6 +1604,7 @@ impl TreeProp {
                     }
                 }
                 ops.push(TreeOp::Set(c, 1));
+                ops.push(TreeOp::Set(1, 4));
                 ops.push(TreeOp::Append(2));
                 ops.push(TreeOp::Range(255, vec![1, 2, 1]));
                 if !q {
